@@ -52,17 +52,34 @@ def main(tier):
     rng = ck.rng
     nbase = 60 if tier == "quick" else 500
     shapes = [([4, 6], 0), ([4, 6], -1), ([6, 8], 0), ([3, 2, 4], 0), ([3, 2, 4], -1), ([2, 3, 2, 2], 0), ([2, 2, 2, 3], -1), ([5, 12], 0), ([12, 5], -1),
-              ([1, 8], 0), ([8, 1], -1), ([1, 3, 4], 0)]  # a kept axis of size 1 degrades to per-tensor
+              ([1, 8], 0), ([8, 1], -1), ([1, 3, 4], 0),
+              ([8, 4], -1), ([4, 2], -1), ([6, 3], -1), ([4, 8], 0)]  # last dimension equal to an admissible group size  # a kept axis of size 1 degrades to per-tensor
     calls, meta = [], []
-    for i in range(nbase):
+    nextra = 14  # directed: float16 int2 / int4 per-axis tensors whose OTHER cells are pushed to both ends of the dtype (their range overflows)
+    # directed: grouped int2 / int4 along the LAST axis with a group size equal to the last dimension (and several groups per column),
+    # and along the first axis with a group size equal to the first dimension
+    grouped = [([8, 4], -1, 4), ([4, 2], -1, 2), ([6, 3], -1, 3), ([16, 4], -1, 4), ([4, 8], 0, 4), ([2, 8], 0, 2), ([8, 8], -1, 8), ([8, 8], 0, 8)]
+    ngrouped = 2 * len(grouped)
+    for i in range(nbase + nextra + ngrouped):
         dtype = ["float32", "float16", "bfloat16"][i % 3]
         qt = N.QTYPES[i % 5]
         shape, axis = shapes[i % len(shapes)]
+        forced = nbase <= i < nbase + nextra
+        forced_gs = None
+        if i >= nbase + nextra:
+            k = i - nbase - nextra
+            shape, axis, forced_gs = grouped[k % len(grouped)]
+            qt = ["qint4", "qint2"][k // len(grouped)]
+        if forced:
+            dtype, qt = "float16", ["qint4", "qint2"][i % 2]
+            shape, axis = [([4, 6], 0), ([6, 4], -1), ([3, 2, 4], 0), ([5, 12], 0)][i % 4]
         per = prod(shape) // (shape[0] if axis == 0 else shape[-1])
         gs = None
-        if qt in ("qint2", "qint4") and rng.random() < 0.6:
+        if qt in ("qint2", "qint4") and rng.random() < 0.6 and not forced:
             divs = [g for g in range(1, per + 1) if per % g == 0]
             gs = rng.choice(divs)
+        if forced_gs is not None:
+            gs = forced_gs
         style = rng.choice(["plain", "offset", "negative"])
         bits = rand_tensor(rng, dtype, shape, axis, style)
         base = {"fn": "quantize_weight", "layout": rng.choice([None, None, None, "transposed", "strided", "offset"]), "dtype": dtype, "shape": shape, "bits": bits, "qtype": qt, "axis": axis, "group_size": gs, "optimizer": None}
@@ -80,7 +97,8 @@ def main(tier):
                 for j in range(len(bits)):
                     c = cell_of(shape, axis, j)
                     if kind == "perturb" and c != k:
-                        b2[j] = N.encode_nearest(Fraction(rng.uniform(-50, 50)), dtype)
+                        # (float16: every third perturbation pushes the OTHER cells to both ends of the dtype, so that their range overflows)
+                        b2[j] = N.encode_nearest(Fraction(rng.uniform(-50, 50)) if not (dtype == "float16" and ((i // 3) % 2 == 0 or i >= nbase)) else Fraction(rng.choice([-60000, 60000, 100, -3])), dtype)
                     elif kind == "rescale" and c != k:
                         v = N.decode(bits[j], dtype)
                         b2[j] = N.encode_nearest(v * 37, dtype) if N.is_finite(v) else bits[j]
